@@ -23,6 +23,7 @@ pub mod comps;
 pub mod mapstep;
 pub mod track;
 pub mod dropstep;
+pub mod detstep;
 
 pub use comps::*;
 pub use env::*;
